@@ -30,8 +30,7 @@ def kinds_in(s):
 
 
 def run(chk):
-    w = facts.world("W")
-    chk.configs.add("W")
+    w = C.world_for(chk)
     for rid, txt in (("R09.1", "kind consistency char<->type"), ("R09.2", "arm forms and twins"),
                      ("R09.3", "dictionary role flow"), ("R09.4", "bias provenance")):
         chk.rule(rid, txt)
